@@ -78,7 +78,7 @@ func init() {
 		Rules: []Rule{
 			R11(),
 			R12(),
-			Only(R17(), `parseConds`, `Handler`),
+			Only(R17(), `^\(\*GcsEmu\)\.Handler/`),
 		},
 		Explanation: "Decides: check-then-act in one critical section — every mutating Store call sits in the closure run under lockName(sameBucket, sameName), after Store.GetMeta of that object and on the success edge of validateConds(thatObject, theRequest'sConditions) (R11, 7 sites); what parseConds writes validateConds reads, every failure branch of validateConds returns 412 for match-kind and 304 for not-match-kind conditions, the nil-object branch passes only for the empty / does-not-exist condition sets, the conditions parsed in Handler reach validateConds on every mutating path including the resumable hand-over through uploadData.Conds and compose's per-source generation match, httpStatusCodeOf returns the code stored by fmtErrorfCode (R12); an unparsable condition is answered 400 followed by return (R17).",
 		NotDecided: []string{"the iff of the whole truth table as a function of runtime values (comparison polarity is checked structurally only for the match/not-match → 412/304 pairing)", "response bodies"},
@@ -118,9 +118,10 @@ func init() {
 			R11(),
 			R20(),
 			R10(),
+			R32(),
 			Only(R01(map[string]int{"memBucket.files": 6, "memstore.buckets": 5}), `/memstore\.`, `/memBucket\.`),
 			Only(R04(), fns("(*memstore).getBucket", "(*memstore).getOrCreateBucket", "(*memstore).CreateBucket", "(*memstore).Add", "(*memstore).UpdateMeta", "(*memstore).Delete", "(*memstore).Walk", "(*memstore).find")),
-			Only(R16(5, core.PkgGcsemu, core.PkgGcsutil), fns("(*GcsEmu).finishUpload", "(*GcsEmu).handleGcsCopy", "(*GcsEmu).handleGcsUpdateMetadataRequest", "(*GcsEmu).handleGcsCompose", "(*GcsEmu).finishCompose", "(*GcsEmu).handleGcsDelete")),
+			Only(R16(5, core.PkgGcsemu, core.PkgGcsutil), fns("(*GcsEmu).finishUpload", "(*GcsEmu).handleGcsNewObject", "(*GcsEmu).handleGcsNewObjectResume", "(*GcsEmu).handleGcsCopy", "(*GcsEmu).handleGcsUpdateMetadataRequest", "(*GcsEmu).handleGcsCompose", "(*GcsEmu).finishCompose", "(*GcsEmu).handleGcsDelete")),
 		},
 		Explanation: "Decides: every mutating Store call is inside the per-object critical section keyed on exactly the (bucket, name) it mutates, with the precondition check in the same section (R11); the lock map really excludes (R20 L2–L10); the memory store's maps and btrees are only touched under their mutexes (R01/R04); objects obtained from a store are never mutated in place — the patch decodes into a deep-fresh copy (R10); values read after a critical section ended are nil-checked (R16).",
 		NotDecided: []string{"read consistency of the file store (Get = stat + sidecar + content without the object lock; Add = three file operations): recorded as a known finding", "history-level serialisability beyond the lock discipline"},
